@@ -421,3 +421,30 @@ def run(facts):
     res.floor("cursor observations", n_obs, 60)
     res.floor("chunk indexes", n_idx, 3)
     return res
+
+
+def run_deep(facts):
+    """thorough tier: the same two checks on every function with its crate-local callees spliced in (two levels): an observation made in a
+    caller and relied on in a helper after the helper moved the cursor (or the reverse) is only visible in the caller's view"""
+    from .inline import inlined
+    res = Result("C9+views", "C9 on the inlined views of every function (helpers spliced in, two levels)")
+    c9 = C9(facts)
+    n = 0
+    for b in facts.fn_bodies():
+        if facts.is_test(b) or b.kind not in ("fn", "assoc_fn"):
+            continue
+        ib = inlined(facts, b, depth=2)
+        if not (ib._cache.get("inlined_from") or ()):
+            continue
+        if not any((callee(t) or {}).get("name") in OBSERVERS for _, t in ib.calls()):
+            continue
+        viol, st = c9.analyse(ib)
+        if not (st["obs"] or st["idx"]):
+            continue
+        n += 1
+        for key, (loc, text) in sorted(viol.items()):
+            res.bad(key + " (in the view of %s)" % b.id.rsplit("::", 1)[-1], b.loc(), text)
+        if not viol:
+            res.ok("%s|observations fresh in the inlined view" % b.id, b.loc(), "%d observation(s), %d movement(s)" % (st["obs"], st["mov"]), nontrivial=bool(st["mov"] and st["obs"]))
+    res.floor("inlined views analysed", n, 15)
+    return res
